@@ -84,6 +84,14 @@ def run_one(pid, name, patch):
 def main(props, jobs):
     props = [p.upper() for p in props]
     ms = mutants(props)
+    if os.environ.get("VP_MATRIX_MISSING_ONLY") == "1":
+        # only the entries that the kill matrix does not hold yet (the matrix is merged, never rebuilt)
+        mpath = os.path.join(HERE, "selftest", "kill_matrix.json")
+        have = set()
+        if os.path.exists(mpath):
+            with open(mpath) as f:
+                have = {(r["property"], r["mutant"]) for r in json.load(f) if r["status"] in ("killed", "quiet")}
+        ms = [m for m in ms if (m[0], m[1]) not in have]
     with ThreadPoolExecutor(max_workers=jobs) as ex:
         res = list(ex.map(lambda a: run_one(*a), ms))
     surv = 0
